@@ -53,9 +53,22 @@
 //! through at least two different spellings of its name (different case, quoting or qualification), at least
 //! two such mutations happened, and a later read (SELECT, information schema, SHOW) was checked.
 //!
-//! Sensitivity probes (tools/mutrun, quick tier): see the bottom of this file's header in the report; recorded
-//! here after running:
-//! PROBES-PLACEHOLDER
+//! Sensitivity probes (tools/mkpatch + tools/mutrun, quick tier, all in datafusion/core/src/execution/context/mod.rs
+//! unless noted):
+//!   1. `create_view`: the `(or_replace = true, exists)` arm returns without deregister/register (CREATE OR REPLACE
+//!      VIEW does not replace; DESIGN probe) -> VIOLATION after 78 cases: `CREATE TABLE v (a BIGINT); CREATE OR
+//!      REPLACE VIEW v AS SELECT * FROM t; SELECT * FROM v` "expected output columns [column1], got [a]".
+//!   2. `find_and_deregister` without the `table_type() == table_type` test (DROP TABLE drops views, DROP VIEW drops
+//!      tables; DESIGN probe) -> VIOLATION after 2 cases: `CREATE TABLE t …; DROP VIEW t` "expected failure,
+//!      statement succeeded".
+//!   3. `create_memory_table`: `(if_not_exists, !or_replace, exists)` replaces instead of being a no-op
+//!      -> VIOLATION after 50 cases: `CREATE TABLE t AS VALUES (0); CREATE TABLE IF NOT EXISTS t AS VALUES (0),(NULL);
+//!      SELECT * FROM t` "row count differs: expected 1 got 2".
+//!   4. catalog/src/information_schema.rs `make_columns`: `field_position + 1` -> was a VIOLATION (2 cases) while
+//!      absolute ordinals were asserted; the oracle has since been relaxed to assert only the ORDER given by
+//!      ordinal_position (the tree counts from 0, the standard from 1), so this probe is no longer meaningful.
+//!   Repair candidate /verif/fixes/C49-view-rebinds-current-catalog.diff (re-plans a view's defining statement
+//!   against the current catalog when a SQL statement refers to the view): FIXRESULT-PLACEHOLDER
 use datafusion::prelude::{SessionConfig, SessionContext};
 use proptest::prelude::*;
 use serde::{Deserialize, Serialize};
@@ -990,7 +1003,24 @@ fn compare(exp: &Exp, got: &Got) -> Option<String> {
                     return Some(format!("expected output columns {n:?}, got {gn:?}"));
                 }
             }
-            let gr: Vec<Vec<Value>> = if names.is_none() { gr.iter().filter(|r| not_info_schema(r)).cloned().collect() } else { gr.clone() };
+            let mut gr: Vec<Vec<Value>> = if names.is_none() { gr.iter().filter(|r| not_info_schema(r)).cloned().collect() } else { gr.clone() };
+            // information_schema.columns: only the ORDER given by ordinal_position is asserted (the tree counts from
+            // 0, the SQL standard from 1): shift every table's ordinals so that they start at 0
+            if names.is_none() && gr.first().map(|r| r.len() == 6).unwrap_or(false) {
+                let mut min: BTreeMap<String, i64> = BTreeMap::new();
+                for r in &gr {
+                    if let Value::Int(o) = r[4] {
+                        let e = min.entry(format!("{:?}", &r[..3])).or_insert(o);
+                        *e = (*e).min(o);
+                    }
+                }
+                for r in gr.iter_mut() {
+                    if let Value::Int(o) = r[4] {
+                        let m = min[&format!("{:?}", &r[..3])];
+                        r[4] = Value::Int(o - m);
+                    }
+                }
+            }
             multiset_diff(rows, &gr)
         }
         (Exp::RowsEither { a, b }, Got::Rows { rows, .. }) => {
